@@ -409,6 +409,63 @@ class Repo:
                 return None
         return cur
 
+    def local_env(self, fn: ast.AST):
+        """Function-scope imports and nested defs: name -> ('import', module, name|None) | ('def', node)."""
+        env = {}
+        for st in ast.walk(fn):
+            if isinstance(st, ast.Import):
+                for a in st.names:
+                    if a.asname:
+                        env[a.asname] = ('import', a.name, None)
+                    else:
+                        env[a.name.split('.')[0]] = ('import', a.name.split('.')[0], None)
+            elif isinstance(st, ast.ImportFrom) and not st.level:
+                for a in st.names:
+                    env[a.asname or a.name] = ('import', st.module, a.name)
+            elif isinstance(st, (ast.FunctionDef, ast.ClassDef)) and st is not fn:
+                env.setdefault(st.name, ('def', st))
+        return env
+
+    def resolve_in_func(self, m: Module, fn: ast.AST, dotted_name: str, env=None):
+        """Resolve a dotted name as written inside function `fn` of module `m`."""
+        env = env if env is not None else self.local_env(fn)
+        parts = dotted_name.split('.')
+        if parts[0] in env:
+            e = env[parts[0]]
+            if e[0] == 'def':
+                return ('localdef', e[1]) if len(parts) == 1 else None
+            _, mod, nm = e
+            if nm is None:
+                cur = self.modules.get(mod)
+                if cur is None:
+                    return ('external', dotted_name)
+            else:
+                cur = self.resolve_in_module(mod, nm) if mod in self.modules else None
+                if cur is None:
+                    sub = f'{mod}.{nm}'
+                    cur = self.modules.get(sub)
+                if cur is None:
+                    return ('external', dotted_name)
+            for p in parts[1:]:
+                if isinstance(cur, Module):
+                    cur = self.resolve_in_module(cur.name, p)
+                elif isinstance(cur, ClassInfo):
+                    nested = self.classes.get(f'{cur.qual}.{p}')
+                    if nested:
+                        cur = nested
+                    else:
+                        r = self.find_method(cur, p)
+                        cur = FuncInfo(r[0].mod, r[1], f'{r[0].qual}.{p}', r[0]) if r else None
+                else:
+                    return None
+                if cur is None:
+                    return None
+            return cur
+        r = self.resolve(m, dotted_name)
+        if r is None and parts[0] in m.imports and m.imports[parts[0]][0].split('.')[0] not in self.modules:
+            return ('external', dotted_name)
+        return r
+
     def resolve_class(self, m: Module, node_or_name) -> Optional[ClassInfo]:
         d = node_or_name if isinstance(node_or_name, str) else dotted(node_or_name)
         r = self.resolve(m, d) if d else None
